@@ -71,6 +71,10 @@ impl ILoggerV2 for HLogger {
 /// are ignored on a file without header), flag `l` = a comment line with two Latin-1 letters directly below the header,
 /// the whole file written as Latin-1 (bytes 0xE9 / 0xEF: NOT valid UTF-8), flag `r` = CRLF line ends.
 ///
+/// flag `e` (together with `n`) = an EMPTY file: nothing but what `m b c l` put there (zero bytes, a byte order mark only,
+/// blank lines only, comments only) — no constant, no uses list, no members.  flag `d` = the header is `module <stem>`
+/// instead of `class <stem> [(parent)]` (a module has no parent: it is not written; mode `lock` only).
+///
 /// A uses list may name an entity that has no file in the workspace (a "ghost") at any position.  With flag `x` the
 /// names of the uses line and the type names of the `var o<i> : <used>` locals are probes (`uses-name<i>` / `used-type<i>`,
 /// for a ghost `uses-ghost<i>` / `ghost-type<i>`), and for every ghost the body ends with a completion `o<i>.` (`complete-ghost<i>`).
@@ -189,6 +193,13 @@ fn render(spec: &FileSpec, all: &[FileSpec]) -> (Vec<u8>, Option<(usize, usize)>
     if has('a') && !headerless {
         t.push("[Annotated]".to_string());
     }
+    if has('e') {
+        if has('l') {
+            t.push("; caf\u{e9} na\u{ef}ve".to_string());
+        }
+        let bytes = if t.lines.is_empty() { encode_text("", &spec.flags) } else { encode(&t, &spec.flags) };
+        return (bytes, None, None, member_pos, probes);
+    }
     if headerless {
         // a file without a class / module header: a comment and a stray constant ...
         t.push("; no class in this file".to_string());
@@ -204,6 +215,10 @@ fn render(spec: &FileSpec, all: &[FileSpec]) -> (Vec<u8>, Option<(usize, usize)>
     }
     match &spec.parent {
         _ if headerless => {}
+        _ if has('d') => {
+            let l = t.push(format!("module {}", spec.stem));
+            class_pos = Some((l, 7 + 1.min(spec.stem.len() - 1)));
+        }
         Some(p) => {
             let l = t.push(format!("class {} ({})", spec.stem, p));
             class_pos = Some((l, 6 + 1.min(spec.stem.len() - 1)));
@@ -330,7 +345,10 @@ fn render(spec: &FileSpec, all: &[FileSpec]) -> (Vec<u8>, Option<(usize, usize)>
 /// the bytes of the file: `\n` or (flag `r`) `\r\n` line ends, UTF-8 or (flag `l`) Latin-1, (flag `m`) a byte order mark first
 fn encode(t: &Text, flags: &str) -> Vec<u8> {
     let nl = if flags.contains('r') { "\r\n" } else { "\n" };
-    let text = t.lines.join(nl) + nl;
+    encode_text(&(t.lines.join(nl) + nl), flags)
+}
+
+fn encode_text(text: &str, flags: &str) -> Vec<u8> {
     let mut out: Vec<u8> = Vec::new();
     if flags.contains('m') {
         out.extend_from_slice(&[0xEF, 0xBB, 0xBF]);
